@@ -36,6 +36,11 @@ def instances(tier):
                             cover=["solved", "average"], weight=30))
         out.append(Instance("C07", "sys_common:s_run", dict(shape=sh, oracle="c07", opts={"energy": True, "phase": "b"}),
                             name="S/" + sid + "@b", uf=True, cover=["solved"], weight=10))
+    from ..shapes import variants as _variants
+    for sid, shape in _variants().items():
+        if ['hole/two-src', 'hole/mux', 'by-rail/mux'] is not None and sid not in ['hole/two-src', 'hole/mux', 'by-rail/mux']:
+            continue
+        out.append(Instance("C07", "sys_common:s_run", dict(shape=shape, oracle="c07", opts={"energy": True}), name="S/var/" + sid, uf=True, cover=["solved"], weight=20))
     if tier == "thorough":
         for sid, sh in shapes.enumerate_mux().items():
             if sid.startswith("mux4"):
